@@ -145,6 +145,10 @@ func DeleteBackup(api MgmtApi, w http.ResponseWriter, r *http.Request) {
 	}
 
 	b := r.URL.Query()["backupID"]
+	if len(b) == 0 {
+		http.Error(w, "Missing backupID parameter", http.StatusBadRequest)
+		return
+	}
 	backupID, err := strconv.ParseUint(b[0], 10, 32)
 	if err != nil {
 		w.WriteHeader(http.StatusBadRequest)
